@@ -157,6 +157,8 @@ def stepLib0 (st : St) (toks : List String) : Option (St × String) :=
   match toks with
   | ["reset"] => some ({}, "ok")
   | ["resetfile"] => some ({ st with w := ⟨none, none⟩ }, "ok")
+  -- a directory entry that names no file (a dangling symlink on the real side): the tree has none
+  | ["dangle", _] => some (st, "ok")
   | ["use", name] =>
     let st := st.flush
     some ({ st with cur := name, w := ⟨st.tree.get name, none⟩ }, "ok")
